@@ -171,6 +171,34 @@ class Parsers:
         return (yaml_data, data_available)
 
     @staticmethod
+    def _load_all_strictly(
+        parser: Any, stream: Any
+    ) -> Generator[Any, None, None]:
+        """
+        Yield each document of a stream, treating warnings as errors.
+
+        The warnings filter is process-wide state, so it is tightened only
+        while the next document is being parsed and is restored before that
+        document is handed to the caller; whatever the caller does with the
+        document must not have its own warnings turned into errors.
+
+        Parameters:
+        1. parser (ruamel.yaml.YAML) The YAML data parser
+        2. stream (Any) The text or file handle to load from
+
+        Returns:  Generator[Any, None, None] Each document as it is parsed
+        """
+        documents = iter(parser.load_all(stream))
+        while True:
+            with warnings.catch_warnings():
+                warnings.filterwarnings("error")
+                try:
+                    document = next(documents)
+                except StopIteration:
+                    return
+            yield document
+
+    @staticmethod
     # pylint: disable=too-many-branches,too-many-statements,too-many-locals
     def get_yaml_multidoc_data(
         parser: Any, logger: ConsolePrinter, source: str, **kwargs
@@ -204,33 +232,37 @@ class Parsers:
         # coallesced into cleaner feedback.
         has_error = False
         try:
-            with warnings.catch_warnings():
-                warnings.filterwarnings("error")
-                if source == "-":
-                    doc_yielded = False
-                    for document in parser.load_all(stdin.read()):
-                        doc_yielded = True
-                        logger.debug(
-                            "Yielding document from {}:".format(source),
-                            prefix="get_yaml_multidoc_data: ", data=document)
-                        yield (document, True)
+            if source == "-":
+                doc_yielded = False
+                for document in Parsers._load_all_strictly(
+                    parser, stdin.read()
+                ):
+                    doc_yielded = True
+                    logger.debug(
+                        "Yielding document from {}:".format(source),
+                        prefix="get_yaml_multidoc_data: ", data=document)
+                    yield (document, True)
 
-                    # The user sent a deliberately empty document via STDIN
-                    if not doc_yielded:
-                        yield ("", True)
+                # The user sent a deliberately empty document via STDIN
+                if not doc_yielded:
+                    yield ("", True)
+            else:
+                if literal:
+                    for document in Parsers._load_all_strictly(
+                        parser, source
+                    ):
+                        yield (document, True)
                 else:
-                    if literal:
-                        for document in parser.load_all(source):
+                    with open(source, 'r', encoding='utf-8') as fhnd:
+                        for document in Parsers._load_all_strictly(
+                            parser, fhnd
+                        ):
+                            logger.debug(
+                                "Yielding document from {}:"
+                                .format(source),
+                                prefix="get_yaml_multidoc_data: ",
+                                data=document)
                             yield (document, True)
-                    else:
-                        with open(source, 'r', encoding='utf-8') as fhnd:
-                            for document in parser.load_all(fhnd):
-                                logger.debug(
-                                    "Yielding document from {}:"
-                                    .format(source),
-                                    prefix="get_yaml_multidoc_data: ",
-                                    data=document)
-                                yield (document, True)
         except KeyboardInterrupt:
             has_error = True
             logger.error("Aborting data load due to keyboard interrupt!")
